@@ -116,6 +116,33 @@ def check(case):
     got = list(nd)
     need(first is None or (got and fields(first) == fields(got[0])), "the first note differs between two iterations of the same NoteData")
     need([fields(n) for n in nd] == [fields(n) for n in got], "a second iteration of the same NoteData yields different notes")
+    # two iterators over the same object alive at once, one running a few notes ahead of the other
+    ia, ib = iter(nd), iter(nd)
+    ra, rb = [], []
+    for _ in range(3):
+        x = next(ib, None)
+        if x is not None:
+            rb.append(x)
+    done_a = done_b = False
+    while not (done_a and done_b):
+        x = next(ia, None)
+        if x is None:
+            done_a = True
+        else:
+            ra.append(x)
+        x = next(ib, None)
+        if x is None:
+            done_b = True
+        else:
+            rb.append(x)
+    need([fields(n) for n in ra] == [fields(n) for n in got] and [fields(n) for n in rb] == [fields(n) for n in got],
+         f"two interleaved iterations of the same NoteData disturb each other; text {text[:300]!r}")
+    if len(got) <= 24:
+        outer = []
+        for n in nd:
+            outer.append(n)
+            need(len(list(nd)) == len(got), "a nested full iteration yields a different number of notes")
+        need([fields(n) for n in outer] == [fields(n) for n in got], f"an iteration is disturbed by full iterations nested inside it; text {text[:300]!r}")
     short = text if len(text) < 400 else text[:400] + "..."
     need(len(got) == len(exp), f"{len(got)} notes decoded, expected {len(exp)}; text {short!r}")
     for i, (g, e) in enumerate(zip(got, exp)):
